@@ -1257,7 +1257,7 @@ fn compile_block_exprs(
             pat:
                 Pat::PVar {
                     name,
-                    ty: pat_ty,
+                    ty: _,
                     astptr: _,
                 },
             value,
@@ -1269,7 +1269,7 @@ fn compile_block_exprs(
                 name: name.clone(),
                 value: Box::new(core_value),
                 body: Box::new(core_body),
-                ty: pat_ty.clone(),
+                ty: ty.clone(),
             }
         }
         ELet { pat, value, ty: _ } => {
@@ -1326,7 +1326,7 @@ fn compile_block_exprs(
                 name: x,
                 value: Box::new(core_value),
                 body: Box::new(core_body),
-                ty: first.get_ty(),
+                ty: ty.clone(),
             }
         }
     }
